@@ -47,6 +47,14 @@ TBU = grammar.TBU
 TSB = typing.TypeVar('TSB', bound=grammar.TB)
 DEEP_UNIONS = [('TBU', TBU), ('Optional[TBU]', typing.Optional[TBU]), ('TSB', TSB), ('Optional[TSB]', typing.Optional[TSB]),
                ('Union[TSB,str]', typing.Union[TSB, str]), ('List[Optional[TBU]]', typing.List[typing.Optional[TBU]])]
+# Annotated hints with two metadata objects, repeated and in both orders
+_VP1, _VP2, _VE1 = grammar.make_validator(('is', grammar.P1)), grammar.make_validator(('is', grammar.P2)), grammar.make_validator(('eq', 1))
+ANNOTATED2 = [('Annotated[int,P1,P1]', typing.Annotated[int, _VP1, _VP1]), ('Annotated[int,P1,P2]', typing.Annotated[int, _VP1, _VP2]),
+              ('Annotated[int,P2,P1]', typing.Annotated[int, _VP2, _VP1]), ('Annotated[int,P2,P2]', typing.Annotated[int, _VP2, _VP2]),
+              ('Annotated[int,eq1,P1]', typing.Annotated[int, _VE1, _VP1]), ('Annotated[int,eq1,eq1]', typing.Annotated[int, _VE1, _VE1]),
+              ('Annotated[int,P1]', typing.Annotated[int, _VP1]), ('Annotated[int,P1,P1,P2]', typing.Annotated[int, _VP1, _VP1, _VP2]),
+              ('Annotated[int,P1,P2,P2]', typing.Annotated[int, _VP1, _VP2, _VP2]), ('List[Annotated[int,P1,P1]]', typing.List[typing.Annotated[int, _VP1, _VP1]]),
+              ('List[Annotated[int,P1,P2]]', typing.List[typing.Annotated[int, _VP1, _VP2]])]
 TWINS = [('TwinTI', TWIN_TI), ('TwinTS', TWIN_TS), ('List[TwinTS]', typing.List[TWIN_TS]), ('List[TwinTI]', typing.List[TWIN_TI]),
          ('Optional[TwinTI]', typing.Optional[TWIN_TI]), ('Optional[TwinTS]', typing.Optional[TWIN_TS]),
          ('TwinCA', TWIN_CA), ('TwinCI', TWIN_CI), ('List[TwinCI]', typing.List[TWIN_CI]), ('List[TwinCA]', typing.List[TWIN_CA]),
@@ -69,7 +77,7 @@ def hint_pool(tier, seed):
             if '[' not in name or any(name.endswith(f'[{l}]') for l in ('int', 'str', 'UA', 'Lit1', 'bool', 'object', 'TU', 'TB')) \
                     or (',' in name and i % 5 == 0):
                 keep.append((name, h))
-        out = keep[:230] + grammar.annotated_hints(1, limit=24)[:24] + [h for h in grammar.special_hints() if 'Any' not in h[0] and 'LiteralString' not in h[0] and 'Unpack' not in h[0] and '*tuple' not in h[0] and 'ARec' not in h[0]][::4] + TWINS + CALLABLES + DEEP_UNIONS
+        out = keep[:230] + grammar.annotated_hints(1, limit=24)[:24] + [h for h in grammar.special_hints() if 'Any' not in h[0] and 'LiteralString' not in h[0] and 'Unpack' not in h[0] and '*tuple' not in h[0] and 'ARec' not in h[0]][::4] + TWINS + CALLABLES + DEEP_UNIONS + ANNOTATED2
     else:
         quick = hint_pool('quick', seed)
         out = quick + out[:700] + grammar.special_hints() + grammar.hints_depth2_curated()[::4] + [
